@@ -125,7 +125,12 @@ let handle = function
   | ["v2enc"; sym; aead; cs; sk; salt; p] ->
     let sym = nn sym and aead = nn aead and cs = nn cs in
     let (key, iv) = Seipd2.derive hkdf256 sym aead cs (bytes_of_hex salt) (bytes_of_hex sk) in
-    hex_of_bytes (Seipd2.seipd2_enc (Prims.seal aead sym) (Seipd2.chunk_len cs) key iv (Seipd2.info_of sym aead cs) (bytes_of_hex p))
+    let c = Seipd2.chunk_len cs and info = Seipd2.info_of sym aead cs in
+    let spec = Seipd2.seipd2_enc (Prims.seal aead sym) c key iv info (bytes_of_hex p) in
+    (* the staged producer of C12_v2_stream_encryptor_machine_is_spec, read with varying request sizes *)
+    let req (i : BinNums.coq_N) : BinNums.coq_N = n_of_int (1 + ((int_of_n i) * 104729) mod 777) in
+    let (mo, oc) = Seipd2EncMachine.a2_run (Prims.seal aead sym) c key iv info req (bytes_of_hex p) in
+    if oc = Emitter.EClean && mo = spec then hex_of_bytes spec else "MODEL-SPLIT v2enc machine /= specification"
   | _ -> "MODEL-ERROR unknown op"
 
 let () = run handle
